@@ -25,7 +25,7 @@ def concrete_playback(ov, harness, timeout_s, mem_gb, stubbing):
     for root, _, files in os.walk(os.path.join(ov.dir, "src")):
         for fn in files:
             text = open(os.path.join(root, fn)).read()
-            for m in re.finditer(r"(#\[test\]\s*fn (kani_concrete_playback_%s_\w+)\(\) \{.*?\n\})"
+            for m in re.finditer(r"(#\[test\]\s*fn (kani_concrete_playback_%s_\d+)\(\s*\)\s*\{.*?\n\s*\})"
                                  % re.escape(harness), text, re.S):
                 tests.append((m.group(2), m.group(1)))
     if not tests:
